@@ -72,8 +72,8 @@ def comm_to_prog(b: dict, pid: str, tagkind: str = "str") -> dict:
                 outs.append([f"r{j}", raw[j]])
         ranks.append({"nodes": nodes, "outs": outs})
     return {"id": pid, "nranks": n, "tagkind": tagkind, "ranks": ranks,
-            "gen": {k: b[k] for k in ("faults", "wf", "why", "affected", "expect", "levels")
-                    if k in b},
+            "gen": {k: b[k] for k in ("faults", "wf", "why", "affected", "expect", "levels",
+                                      "abs") if k in b},
             "comm": {"sends": b["sends"], "recvs": b["recvs"], "stored": b["stored"],
                      "staple": b["staple"]}}
 
@@ -111,7 +111,8 @@ def generate(label: str, simulate: int = 0, depth: int = 80, timeout: float = 90
     if simulate:
         args = ["-simulate", f"num={simulate}", "-depth", str(depth),
                 "-seed", str(seed() * 7919 + zlib.crc32(label.encode()) % 100000)]
-    res = tlc.run_tlc("DistComm", cfg, workers=1, args=args, timeout=timeout, heap="3g")
+    res = tlc.run_tlc("DistComm", cfg, workers=1, args=args, timeout=timeout, heap="3g",
+                      env={"JAVA_TOOL_OPTIONS": "-XX:ParallelGCThreads=2"})
     if res.error or res.violated:
         raise MachineryError(f"DistComm generator failed ({label}): "
                              f"{res.error or res.violated}\n{res.out[-1500:]}")
@@ -453,3 +454,74 @@ def has_forward_recv(prog: dict) -> bool:
             if nd["k"] == "hold" and rk["nodes"][nd["data"]]["k"] == "recv":
                 return True
     return False
+
+
+# --------------------------------------------------------------------------
+# the specification's own partitioner (DistComm!AbsParts) as an instance
+
+def abs_instance(b: dict, iid: str, base_tag: int = 42) -> dict | None:
+    """The abstract partition DistComm derives for a well-formed behaviour,
+    in the format of distharness.export_instance, so that DistPartition and
+    DistExec judge the specification's own partitioner exactly as they judge
+    the real one.  Data flow of the abstract program: a sent array reads the
+    rank's input x and the receives it depends on; the single output reads x
+    and every receive of the rank (computed in the last part)."""
+    if not b.get("abs"):
+        return None
+    n = b["n"]
+    msgs = sorted({tuple(m["m"]) for rk in b["abs"] for p in rk for m in p["sends"]}
+                  | {tuple(m) for rk in b["abs"] for p in rk for m in p["recvs"]})
+    tag = {m: base_tag + i for i, m in enumerate(msgs)}
+    ids: dict[tuple, int] = {}
+
+    def vid(rank: int, name: str) -> int:
+        return ids.setdefault((rank, name), len(ids) + 1)
+
+    def rname(m: tuple) -> str:
+        return f"r_{m[0]}_{m[1]}_{m[2]}"
+
+    def dname(m: tuple) -> str:
+        return f"d_{m[0]}_{m[1]}_{m[2]}"
+    ranks = []
+    ends = {"n": n, "sends": [], "recvs": []}
+    for r in range(n):
+        parts, posted = [], []
+        exp = {"x": vid(r, "x")}
+        allrecv: list[str] = []
+        nparts = len(b["abs"][r])
+        for k, p in enumerate(b["abs"][r]):
+            recvs, sends, exprs = [], [], {}
+            for m in sorted(map(tuple, p["recvs"])):
+                rec = {"name": rname(m), "src": m[0], "tag": tag[m], "sym": f"abs:{m[2]}",
+                       "shape": [2], "dtype": "<i8"}
+                recvs.append(rec)
+                posted.append(rec)
+                allrecv.append(rname(m))
+                exp[rname(m)] = vid(m[0], dname(m))
+                ends["recvs"].append({"rank": r, "src": m[0], "sym": f"abs:{m[2]}"})
+            for s in sorted(p["sends"], key=lambda s: tuple(s["m"])):
+                m = tuple(s["m"])
+                reads = sorted(["x"] + [rname(tuple(q)) for q in s["reads"]])
+                sends.append({"name": dname(m), "dst": m[1], "tag": tag[m], "sym": f"abs:{m[2]}",
+                              "reads": reads, "ncomm": 0, "same": True, "shape": [2],
+                              "dtype": "<i8"})
+                exprs[dname(m)] = {"reads": reads, "ncomm": 0}
+                exp[dname(m)] = vid(r, dname(m))
+                ends["sends"].append({"rank": r, "dst": m[1], "sym": f"abs:{m[2]}",
+                                      "deps": []})
+            if k == nparts - 1:
+                exprs["out"] = {"reads": sorted(["x"] + allrecv), "ncomm": 0}
+                exp["out"] = vid(r, "out")
+            ins = sorted({nm for e in exprs.values() for nm in e["reads"]})
+            parts.append({"pid": k, "needed": [k - 1] if k else [],
+                          "user_in": [nm for nm in ins if nm == "x"],
+                          "part_in": [nm for nm in ins if nm != "x"], "ins": ins,
+                          "outs": sorted(exprs), "recvs": recvs, "sends": sends,
+                          "exprs": exprs})
+        ranks.append({"rank": r, "parts": parts, "posted": posted, "userin": ["x"],
+                      "overall": ["out"], "outnames": ["out"],
+                      "known": sorted(nm for p in parts for nm in p["outs"]),
+                      "exp": exp, "gout": {"out": exp["out"]}, "undefined": [],
+                      "next_tag": base_tag + len(msgs)})
+    return {"id": iid, "n": n, "ranks": ranks, "global_ok": True, "global_err": "",
+            "ends": ends, "base_tag": base_tag, "verify": ["ok"] * n, "values": len(ids)}
